@@ -350,3 +350,12 @@ package hclsyntax
 //@ ensures marks: forall j int, k iface :: { marked(exprVal(old(e.Parts[j]), ctx), k) } 0 <= j && j < old(len(e.Parts)) && marked(exprVal(old(e.Parts[j]), ctx), k) && !isNullVal(exprVal(old(e.Parts[j]), ctx)) ==> marked(ret0, k)
 //@ loop 1 invariant marks != nil && fresh(marks) && (forall j int, k iface :: { marked(exprVal(e.Parts[j], ctx), k) } 0 <= j && j <= rangeindex && marked(exprVal(e.Parts[j], ctx), k) && !isNullVal(exprVal(e.Parts[j], ctx)) ==> has(marks, k))
 //@ loop 2 invariant marks != nil && partMarks != marks && (forall k iface :: { has(marks, k) } { atentry(has(marks, k)) } atentry(has(marks, k)) ==> has(marks, k)) && (forall k iface :: { visited(k) } visited(k) ==> has(marks, k)) && (forall k iface :: { has(partMarks, k) } { atentry(has(partMarks, k)) } has(partMarks, k) == atentry(has(partMarks, k)))
+
+// Template for-directives (%{ for }) are evaluated as a tuple-producing for expression joined by
+// TemplateJoinExpr: the marks of the tuple value are on the joined string on every path, whether the
+// tuple is known or not (there is no error return in this function).
+// verif:func (*TemplateJoinExpr).Value
+//@ nosafety
+//@ maypanic
+//@ ensures marks: forall k iface :: { marked(ret0, k) } marked(exprVal(old(e.Tuple), ctx), k) ==> marked(ret0, k)
+//@ loop 1 invariant len(allMarks) >= 1 && allMarks[0] == marks
